@@ -254,6 +254,13 @@ func describeNoID(f *ach.File) string {
 // prefix is "roundtrip" (constructor-built files) or "fixed-point" (files the
 // Reader produced); tag goes into the histogram class.
 func checkFile(f *ach.File, prefix, tag string, les, layouts []string, r *gen.Rand, extra map[string]any, res *result) {
+	defer func() {
+		if p := recover(); p != nil {
+			// String(), Validate() ... of the library panicked on a valid file
+			res.fails = append(res.fails, failure{"C01/" + prefix + "/panic/" + msgClass(fmt.Errorf("%v", p)), "the library panicked while a valid file was rendered, written or read back",
+				map[string]any{"describe": gen.Describe(f), "extra": extra}, fmt.Sprint(p), "no panic"})
+		}
+	}()
 	orig := flatten(f)
 	emptyTime := f.Header.FileCreationTime == ""
 	desc := describeNoID(f)
@@ -462,7 +469,7 @@ func init() {
 
 func run(t *T) {
 	// ---- part A --------------------------------------------------------------
-	nA := t.Budget(480)
+	nA := t.Budget(1200)
 	rsA := make([]*gen.Rand, nA)
 	for i := range rsA {
 		rsA[i] = t.R.Fork(uint64(i))
@@ -471,7 +478,7 @@ func run(t *T) {
 		res := &result{}
 		r := rsA[i]
 		o, tag := optsFor(i)
-		f, err := gen.File(r, o)
+		f, err := safeGen(r, o)
 		if err != nil {
 			res.cases = append(res.cases, caseRec{"", "gen/" + tag + "/generator-error", false})
 			if !o.Risky {
@@ -527,7 +534,7 @@ func run(t *T) {
 		}
 		bases = append(bases, baseText{fmt.Sprintf("gen[%d]/%s", i, tag), txt})
 	}
-	nMut := t.Budget(1500)
+	nMut := t.Budget(4000)
 	nB := nCorpus + nMut
 	rsB := make([]*gen.Rand, nB)
 	rm := t.R.Fork(0xB1)
@@ -587,4 +594,13 @@ func validate(f *ach.File) (err error) {
 		}
 	}()
 	return f.Validate()
+}
+
+func safeGen(r *gen.Rand, o gen.Opts) (f *ach.File, err error) {
+	defer func() {
+		if p := recover(); p != nil {
+			err = fmt.Errorf("PANIC while building a file through the public constructors: %v", p)
+		}
+	}()
+	return gen.File(r, o)
 }
